@@ -44,12 +44,18 @@ func (t fasttime) reached() bool {
 
 // makeDeadline returns a time that is approximately time.Now().Add(d)
 func makeDeadline(d time.Duration) fasttime {
+	// Read clockEnd before current: a stopped clock leaves current stale, and another
+	// goroutine may refresh current and then extend clockEnd at any moment. Seeing the
+	// extended clockEnd therefore guarantees that the current read below is fresh, while
+	// the old clockEnd always sends us through the locked path.
+	clockEnd := fast.clockEnd.read()
+
 	// Increase the deadline since the clock we are reading may be
 	// just about to tick forwards.
 	end := fast.current.read() + durationToTicks(d+clockPeriod)
 
 	// Start or extend clock if necessary.
-	if end > fast.clockEnd.read() {
+	if end > clockEnd {
 		// If time.Since(last use) > timeout, there's a chance that
 		// fast.current will no longer be updated, which can lead to
 		// incorrect 'end' calculations that can trigger a false timeout
